@@ -22,6 +22,8 @@ for sid in sorted(os.listdir(os.path.join(ROOT, "seeded"))):
     txt = open(pf, encoding="utf-8", errors="replace").read()
     if any(("+++ b/" + f) in txt for f in FILES):
         sel.append(sid)
+if os.environ.get("C01_SEEDS"):      # explicit list (C01's own seeds included)
+    sel = os.environ["C01_SEEDS"].split()
 sel = sel[part::parts]
 print("selected", len(sel), flush=True)
 for sid in sel:
